@@ -37,7 +37,7 @@ RULE = ("fault classes per configuration: F0 missing, F1 empty, F2 truncation (e
 ASSUMPTIONS = ["crash points are the write() calls the zip writer issues on this platform; torn writes below the syscall boundary are approximated by byte truncation",
                "zlib CRC / zipfile / zanj are trusted to detect what they detect", "serial generation is deterministic (C04)"]
 NSHARDS = {"quick": 16, "thorough": 16}
-THRESHOLDS = {"quick": {"c11:F0": 3, "c11:F1": 3, "c11:F2": 600, "c11:F3": 600, "c11:F4a": 30, "c11:F5": 20, "c11:F5c": 2, "c11:F6": 100, "c11:intact-hit": 3,
+THRESHOLDS = {"quick": {"c11:F0": 3, "c11:F1": 3, "c11:F2": 600, "c11:F3": 600, "c11:F4a": 30, "c11:F5": 20, "c11:F5c": 2, "c11:neighbouring-requests": 4, "c11:F6": 100, "c11:intact-hit": 3,
                         "c11:reader-raised-and-regenerated": 300, "c11:file-left-behind-checked": 1000, "c11:F5:raised": 15,
                         "c11:F5:n_mazes-foreign": 3}}
 THRESHOLDS["thorough"] = {**THRESHOLDS["quick"], "c11:F2": 20000, "c11:F3": 20000}
@@ -121,6 +121,7 @@ def run(ctx):
     gen_calls = dict(n=0)
     Probes.get().on_start(MazeDataset.generate, lambda fr: gen_calls.__setitem__("n", gen_calls["n"] + 1), name="MazeDataset.generate")
     strace_ok = shutil.which("strace") is not None
+    _neighbouring_requests(ctx)
     for si, spec in enumerate(specs):
         base = os.path.join(ctx.work, f"cache-{spec['key']}")
         os.makedirs(base, exist_ok=True)
@@ -382,6 +383,76 @@ def run(ctx):
                     ctx.violation(f"C11/F5c/setup-exception/{type(e).__name__}", repr(e)[:300], case)
                 shutil.rmtree(cbase, ignore_errors=True)
         shutil.rmtree(base, ignore_errors=True)
+
+
+def _gen_mine_v1():
+    def gen_mine(grid_shape, **kwargs):
+        "a user-defined generator"
+        from maze_dataset.generation.generators import LatticeMazeGenerators
+        return LatticeMazeGenerators.gen_dfs(grid_shape, **kwargs)
+    return gen_mine
+
+
+def _gen_mine_v2():
+    def gen_mine(grid_shape, **kwargs):
+        "a user-defined generator"
+        from maze_dataset.generation.generators import LatticeMazeGenerators
+        return LatticeMazeGenerators.gen_dfs_percolation(grid_shape, p=0.6, **kwargs)
+    return gen_mine
+
+
+def _neighbouring_requests(ctx):
+    """honest requests that are close to each other and share one cache directory: (a) maze counts whose shortened spelling in the
+    file name coincides (1010 / 1040 -> '1.0K'), (b) a user-defined generator that is re-defined under the same name between two
+    requests (a notebook cell edited and re-run).  Each request must return what a fresh generation of *its* configuration gives
+    (or raise), and leave a loadable file with those mazes."""
+    from maze_dataset import MazeDataset, MazeDatasetConfig
+    from maze_dataset.generation.generators import GENERATORS_MAP
+
+    def fresh(cfg_maker):
+        with warnings.catch_warnings():
+            warnings.simplefilter("ignore")
+            return digests(MazeDataset.from_config(cfg_maker(), load_local=False, save_local=False, do_download=False))
+
+    scenarios = []
+    if ctx.mine(2):
+        mk = lambda n: (lambda: MazeDatasetConfig(name="c11-bucket", grid_n=2, n_mazes=n, maze_ctor=GENERATORS_MAP["gen_dfs"], seed=31))  # noqa: E731
+        scenarios.append(("same-count-bucket", [("1010 mazes", mk(1010)), ("1040 mazes", mk(1040)), ("1010 mazes again", mk(1010))]))
+    if ctx.mine(6):
+        def mk_gen(version):
+            def make():
+                gen = version()
+                GENERATORS_MAP[gen.__name__] = gen        # (re-)registered so that stored configs can be loaded
+                return MazeDatasetConfig(name="c11-mine", grid_n=4, n_mazes=10, maze_ctor=gen, seed=32)
+            return make
+        scenarios.append(("generator-redefined", [("first definition", mk_gen(_gen_mine_v1)), ("second definition", mk_gen(_gen_mine_v2))]))
+    for tag, steps in scenarios:
+        base = os.path.join(ctx.work, f"neigh-{tag}")
+        os.makedirs(base, exist_ok=True)
+        try:
+            for label, maker in steps:
+                case = dict(fault="neighbouring-requests", scenario=tag, step=label)
+                try:
+                    ref_d = fresh(maker)
+                    out = request(maker(), base)
+                    d = digests(out)
+                    ctx.ev(); ctx.tally("c11:neighbouring-requests")
+                    ctx.check(d == ref_d, f"C11/neighbouring-requests/{tag}/other-configurations-data-served",
+                              f"{label}: returned {len(d)} mazes {d[:2]}; a fresh generation of this configuration gives {len(ref_d)} mazes {ref_d[:2]}", case)
+                    with warnings.catch_warnings():
+                        warnings.simplefilter("ignore")
+                        fpath = os.path.join(base, maker().to_fname() + ".zanj")
+                        ok_file = os.path.exists(fpath) and digests(MazeDataset.read(fpath)) == ref_d
+                    ctx.check(ok_file, f"C11/neighbouring-requests/{tag}/file-left-behind-missing-or-other-mazes", f"{label}: {os.path.basename(fpath)}; directory holds {sorted(os.listdir(base))}", case)
+                except ValueError as e:
+                    ctx.tally("c11:neighbouring-requests:raised")
+                    ctx.check(tag != "same-count-bucket" or True, "unused", "", case)
+                except Exception as e:  # noqa: BLE001
+                    import traceback
+                    ctx.violation(f"C11/neighbouring-requests/{tag}/exception/{type(e).__name__}", traceback.format_exc()[-1000:], case)
+        finally:
+            GENERATORS_MAP.pop("gen_mine", None)
+            shutil.rmtree(base, ignore_errors=True)
 
 
 def _strace_crashes(ctx, spec, base, path, judge, k0):
